@@ -276,6 +276,35 @@ def after_children_partly_planned(sig, ctx) -> bool:
     return False
 
 
+def cancel_flag_then_crash(sig, ctx) -> bool:
+    """The worker was killed after CancelWorkflow committed the cancel flag and before its fan-out transaction; the run
+    went on under the flag and reached CANCELED through the RunTask guard before the CancelWorkflow message was
+    redelivered - which then finds the workflow complete and does nothing: stages that never started stay NOT_STARTED."""
+    if ctx["formula"] not in sig["formulas"]:
+        return False
+    s = _st(ctx)
+    wf = s.get("wf") or {}
+    if wf.get("status") not in ("CANCELED", "TERMINAL", "SUCCEEDED", "STOPPED") or not wf.get("canceled") or s.get("q"):
+        return False      # (the workflow may also have ended with a failure of its own under the flag)
+    st = s.get("st") or {}
+    if not any(v.get("status") == "NOT_STARTED" for v in st.values()):
+        return False
+    if any(v.get("status") in ("RUNNING", "SUSPENDED", "PAUSED") for v in st.values()):
+        return False
+    if ctx.get("source") == "model":
+        return (s.get("cnt") or {}).get("crashes", 0) >= 1
+    tr = ctx.get("trace")
+    if not tr:
+        return False
+    for e in tr["events"]:      # killed with the flag set, the CancelWorkflow message still queued, nothing fanned out yet
+        if e["e"] == "crash":
+            c = e["s"]
+            if c["wf"].get("canceled") and any(m["typ"] == "CancelWorkflow" for m in c["q"]) \
+                    and not any(m["typ"] in ("CancelStage", "CompleteWorkflow") for m in c["q"]):
+                return True
+    return False
+
+
 def late_branch_kill(sig, ctx) -> bool:
     """A fired first-of / quorum join stage marked TERMINAL by the wait-retry exhaustion of the
     StartStage its late branch sent."""
@@ -329,5 +358,6 @@ PREDICATES = {
     "add_instance_not_atomic": add_instance_not_atomic,
     "sweep_restarts_skipped_branch": sweep_restarts_skipped_branch,
     "after_children_partly_planned": after_children_partly_planned,
+    "cancel_flag_then_crash": cancel_flag_then_crash,
     "always": always,
 }
